@@ -450,7 +450,7 @@ def body(chk):
     bad = [dict(e) for e in traces[0]]
     for e in bad:
       if e['ev'] == 'Ret' and e['k'] == 'int':
-        e['n'] += 1
+        e['n'] += 1000      # far outside anything an unlogged choice of the specification could explain
         break
     acc2, rej2, _ = tracecheck.validate('remote', 'Trace_Remote', [bad], tconsts, invariants=INVS, explain=0)
     chk.coverage['corrupted_trace_rejected'] = not acc2
